@@ -44,7 +44,7 @@ type item struct {
 type Cfg struct {
 	Kind   string `json:"kind"` // badger-typed badger-map mock mock-newid
 	Prefix string `json:"prefix"`
-	Vetoes int    `json:"vetoes"` // number of BeforeChange callbacks (badger only); veto when the after-value has N%7==3
+	Vetoes int    `json:"vetoes"` // number of BeforeChange callbacks (badger only); a value with N%7==3 is vetoed by exactly one of them
 	OnChg  int    `json:"onchange"`
 }
 
@@ -104,11 +104,39 @@ func (f *fixture) value(n int) interface{} {
 	}
 }
 
-func (f *fixture) wrongType() interface{} {
+type namedMap map[string]interface{}
+type item2 item
+
+// wrongType returns a value whose type is not the store's value type, including near
+// misses (a named map type, an unnamed struct with the same fields, a pointer).
+func (f *fixture) wrongType(n int) interface{} {
 	if f.cfg.Kind == "badger-map" {
-		return item{Name: "x"}
+		switch n / 2 % 4 {
+		case 0:
+			return item{Name: "x"}
+		case 1:
+			return namedMap{"name": "x"}
+		case 2:
+			return &map[string]interface{}{"name": "x"}
+		default:
+			return map[string]string{"name": "x"}
+		}
 	}
-	return map[string]interface{}{"name": "x"}
+	switch n / 2 % 5 {
+	case 0:
+		return map[string]interface{}{"name": "x"}
+	case 1:
+		return struct {
+			Name string `json:"name"`
+			N    int    `json:"n"`
+		}{Name: "x"}
+	case 2:
+		return &item{Name: "x"}
+	case 3:
+		return item2{Name: "x"}
+	default:
+		return "x"
+	}
 }
 
 func vetoed(after interface{}) bool {
@@ -118,6 +146,14 @@ func vetoed(after interface{}) bool {
 	var m struct{ N int }
 	_ = json.Unmarshal([]byte(enc(after)), &m)
 	return m.N%7 == 3
+}
+
+// vetoer tells which of the k registered BeforeChange callbacks raises the veto of a
+// vetoed value (exactly one of them does; the others accept).
+func vetoer(after interface{}, k int) int {
+	var m struct{ N int }
+	_ = json.Unmarshal([]byte(enc(after)), &m)
+	return (m.N / 7) % k
 }
 
 func newFixture(cfg Cfg) (*fixture, error) {
@@ -142,8 +178,9 @@ func newFixture(cfg Cfg) (*fixture, error) {
 		}
 		st.SetPrefix(cfg.Prefix)
 		for i := 0; i < cfg.Vetoes; i++ {
+			i := i
 			st.BeforeChange(func(id string, before, after interface{}) error {
-				if vetoed(after) {
+				if vetoed(after) && vetoer(after, cfg.Vetoes) == i {
 					return errors.New("vetoed")
 				}
 				return nil
@@ -384,9 +421,9 @@ func runSequential(c Case) (msg string, failing int, readAfterWrite bool) {
 					}
 					failing++
 					if op.N%2 == 0 {
-						err = wtx.Create(f.wrongType())
+						err = wtx.Create(f.wrongType(op.N))
 					} else {
-						err = wtx.Update(f.wrongType())
+						err = wtx.Update(f.wrongType(op.N))
 					}
 					if err == nil {
 						return fmt.Sprintf("%s: a value of the wrong type was accepted", where), failing, readAfterWrite
@@ -425,7 +462,7 @@ func genCfg() *rapid.Generator[Cfg] {
 	return rapid.Custom(func(t *rapid.T) Cfg {
 		c := Cfg{Kind: rapid.SampledFrom([]string{"badger-typed", "badger-map", "badger-typed", "mock", "mock-newid"}).Draw(t, "kind")}
 		c.Prefix = rapid.SampledFrom([]string{"", "pfx", "a.b"}).Draw(t, "prefix")
-		c.Vetoes = rapid.IntRange(0, 2).Draw(t, "vetoes")
+		c.Vetoes = rapid.IntRange(0, 3).Draw(t, "vetoes")
 		c.OnChg = rapid.SampledFrom([]int{1, 1, 2, 0}).Draw(t, "onchange")
 		return c
 	})
